@@ -68,6 +68,18 @@ fn seq_case(s: &SeqSpec) -> PResult {
         let got_c: String = sl.chunks(3).skip(frame).step_by(2).take(n + 2).map(|c| STANDARD.to_amino(c).to_char()).collect();
         ensure_eq!(got_c, exp_c, "chunk_frames", "chunks(3).skip({frame}).step_by(2)");
     }
+    // fold-based consumers after advancing: collect into a Seq<Amino> (uses fold), count, last
+    if n >= 3 {
+        for k in [1usize, 2, (n / 3).max(1)] {
+            let exp_s: String = letters.chunks_exact(3).skip(k).map(|w| model::ncbi_translate(w) as char).collect();
+            let got_s: Seq<AminoC> = no_panic("to_amino_panic", "chunks(3).skip(k) collected into Seq<Amino>", || sl.chunks(3).skip(k).map(|c| STANDARD.to_amino(c)).collect())?;
+            ensure_eq!(got_s.to_string(), exp_s, "chunks_skip_collect", "chunks(3).skip({k}).map(to_amino).collect::<Seq<Amino>>()");
+            let exp_w: String = letters.windows(3).skip(k).map(|w| model::ncbi_translate(w) as char).collect();
+            let got_w: Seq<AminoC> = sl.windows(3).skip(k).map(|c| STANDARD.to_amino(c)).collect();
+            ensure_eq!(got_w.to_string(), exp_w, "windows_skip_collect", "windows(3).skip({k}).map(to_amino).collect::<Seq<Amino>>()");
+            ensure_eq!(sl.windows(3).skip(k).count(), letters.windows(3).skip(k).count(), "windows_skip_count", "windows(3).skip({k}).count()");
+        }
+    }
     if n >= 5 {
         let k = n / 2;
         let w = no_panic("to_amino_panic", "windows(3).nth", || sl.windows(3).nth(k).map(|c| STANDARD.to_amino(c).to_char()))?;
